@@ -6,9 +6,6 @@ ListedDevs == {}
 Init == c \in 1..NObs /\ done = FALSE
 Finish ==
   /\ ~done /\ done' = TRUE /\ c' = c
-  /\ LET ob == Obs[c]
-         w  == WhyElem(ob, {})
-     IN PrintT(ToJson(Verdict(ob, w = "", w, ob.abs.items[1].elem.attrs # <<>> \/ ob.abs.kind = "tag",
-                              IF w = "" THEN {} ELSE {d \in ListedDevs : WhyElem(ob, {d}) = ""})))
+  /\ LET ob == Obs[c] IN PrintT(ToJson(Judged(ob, WhyElem, ListedDevs, ob.abs.items[1].elem.attrs # <<>> \/ ob.abs.kind = "tag")))
 Next == Finish
 =============================================================================
